@@ -12,7 +12,8 @@ PROPERTY = "C12"
 BUDGET = {"quick": 2400, "thorough": 6000}
 RULE = ("Continuous and grid worlds (SpaceWorld, DiscreteWorld, LineWorld, GridWorld; wrap on/off; unequal extents, zero-extent "
         "axes), 0-6 agents placed (coincident agents; agents exactly on box faces BY CONSTRUCTION: query = agent position +- "
-        "leeway), some moved (move_to) or removed afterwards; 1-6 queries with the point inside/outside the world and "
+        "leeway), some moved (move_to) or removed afterwards; 1-6 queries INTERLEAVED with further population changes (move, leave, a "
+        "leave followed by another agent joining so that the head count stays equal, the same agent re-joining elsewhere), with the point inside/outside the world and "
         "leeway / x,y,z_leeway from {0, equal, one larger, negative}. All numbers are integer eighths (exact dyadic floats). "
         "Oracle: exact Fraction filter over the recorded positions, |p-q| <= max(leeway, axis_leeway) on every axis, in "
         "joining order; in wrapping worlds the toroidal distance on positive-extent axes. Non-trivial: >= 2 agents of which "
@@ -90,14 +91,31 @@ def run_case(case):
         agents.append(ag)
     resident = list(agents)
     labels = set()
-    for mv in case.get("moves", [])[:6]:
+    counter = [len(agents)]
+
+    def change(mv):
+        if mv.get("add") is not None:                      # a newcomer joins (possibly right after somebody left)
+            if len(resident) >= 8:
+                return
+            pos = [clampin(kind, int(v), ext[ax]) for ax, v in enumerate(mv["add"])]
+            ag = Agent(f"a{counter[0]}", model)
+            counter[0] += 1
+            env.add_agent(ag, *[coord(kind, v) for v in pos])
+            resident.append(ag)
+            labels.add("late-joiner")
+            return
         if not resident:
-            break
+            return
         ag = resident[int(mv["a"]) % len(resident)]
         if mv.get("remove"):
             env.remove_agent(ag.id)
             resident.remove(ag)
             labels.add("removed-agent")
+            if mv.get("rejoin") is not None:               # the same agent object re-joins elsewhere (now last in joining order)
+                pos = [clampin(kind, int(v), ext[ax]) for ax, v in enumerate(mv["rejoin"])]
+                env.add_agent(ag, *[coord(kind, v) for v in pos])
+                resident.append(ag)
+                labels.add("rejoined-agent")
         else:
             pos = [clampin(kind, int(v), ext[ax]) for ax, v in enumerate(mv["to"])]
             try:
@@ -105,9 +123,18 @@ def run_case(case):
             except Exception as e:
                 raise Violation("move-raised", f"move_to {pos} (eighths) raised {type(e).__name__}: {e}")
             labels.add("moved-agent")
+
+    for mv in case.get("moves", [])[:6]:
+        change(mv)
+    script = [("q", q) for q in case.get("queries", [])[:8]]
+    if case.get("script") is not None:                     # queries interleaved with population changes
+        script = [("q", st_["q"]) if "q" in st_ else ("c", st_["c"]) for st_ in case["script"][:16]]
     masked = 0
     nontrivial = False
-    for qi, q in enumerate(case["queries"][:8]):
+    for qi, (what, q) in enumerate(script):
+        if what == "c":
+            change(q)
+            continue
         pt = [Fraction(int(v), 8) for v in q["q"]]
         lee = Fraction(int(q.get("lee", 0)), 8)
         axl = [Fraction(int(v), 8) for v in q.get("axl", (0, 0, 0))]
@@ -233,5 +260,23 @@ def strategy(tier):
             else:
                 q = [draw(st.integers(-3, 16)) * step for _ in range(3)]
             queries.append({"q": q, "lee": lee, "axl": axl, "pass_zero": draw(st.booleans())})
-        return {"kind": kind, "ext": ext, "wrap": wrap, "agents": agents, "moves": moves, "queries": queries}
+        script = []
+        for q in queries:
+            for _ in range(draw(st.sampled_from([0, 0, 1, 2]))):
+                how = draw(st.sampled_from(["move", "remove", "swap", "rejoin", "add"]))
+                pos3 = [draw(c) if ext[ax] > 0 else 0 for ax in range(3)]
+                a = draw(st.integers(0, 7))
+                if how == "move":
+                    script.append({"c": {"a": a, "to": pos3}})
+                elif how == "remove":
+                    script.append({"c": {"a": a, "remove": True}})
+                elif how == "rejoin":
+                    script.append({"c": {"a": a, "remove": True, "rejoin": pos3}})
+                elif how == "add":
+                    script.append({"c": {"add": pos3}})
+                else:                                       # somebody leaves, somebody else joins: the head count stays the same
+                    script.append({"c": {"a": a, "remove": True}})
+                    script.append({"c": {"add": pos3}})
+            script.append({"q": q})
+        return {"kind": kind, "ext": ext, "wrap": wrap, "agents": agents, "moves": moves, "script": script}
     return case()
